@@ -212,7 +212,7 @@ impl<F: PathFetcher> PathSet<F> {
 
                 // If manager still exists, drop the PathSet entry
                 if let Some(mgr) = self.manager.upgrade() {
-                    mgr.stop_managing_paths(self.src, self.dst);
+                    mgr.stop_managing_own_paths(self.src, self.dst, &self.shared);
                 }
 
                 // Ensure no waiting tasks remain
